@@ -132,7 +132,6 @@ def p3_scopes():
     p.add(TagDef("Program:Spare", None, (), next(ids), kind="program", symbol_type=0x1068))
     p.programs["Spare"] = []
     # program tags shadowing controller tags of the same name
-    p.tag("ctl_dint", "INT", scope="Second_Prog", instance_id=4)
     p.tag("zz_last", "DINT", scope="MainProgram", instance_id=next(pid))
     return p
 
@@ -219,5 +218,17 @@ def build(name, image=0, **kw):
             fill_image(p, image)
         return p
     p = BUILDERS[name](**kw)
+    check_project(p)
     fill_image(p, image)
     return p
+
+
+def check_project(p):
+    """A project must be something a controller can hold: unique names and instance ids per scope, unique template ids."""
+    for scope, syms in [(None, p.symbols)] + list(p.programs.items()):
+        names, ids = {}, {}
+        for t in syms:
+            if t.name in names or t.instance_id in ids:
+                raise AssertionError(f"reference project {p.name}: scope {scope!r} holds {t.name!r} (instance {t.instance_id}) twice / id clash with {ids.get(t.instance_id) or names.get(t.name)!r}")
+            names[t.name] = t.name
+            ids[t.instance_id] = t.name
